@@ -7,6 +7,7 @@ attribute model (presence, order, canonical spelling, value) over the attribute 
 from __future__ import annotations
 
 import re
+import sys
 from datetime import datetime, timedelta, timezone
 
 from .c06_header_roundtrip import OtherZone
@@ -478,6 +479,71 @@ def check_jar_reentrant_and_clock(W, rec):
             return
 
 
+def check_expires_texts_and_dump_histories(W, rec, rng):
+    """A string given as ``expires`` is the application's own spelling of the instant and is carried as given (the other
+    types are normalised to an HTTP date); dump_cookie is a function of its arguments: what an earlier call did - returned,
+    or failed half-way because the "cookie too large" warning was escalated to an error - and what other threads dump at
+    the same time leave no trace in a header."""
+    import threading
+    import warnings
+
+    http = W["http"]
+    for text in ("2031-01-01T12:00:00Z", "Wed, 01-Jan-2031 12:00:00 GMT", "Wed Jan  1 12:00:00 2031", "Wed, 01 Jan 2031 12:00:00 GMT", "1 Jan 2031 12:00 +0000", "never"):
+        rec.case()
+        rec.nontrivial(("expires-text", text))
+        rec.observe("expires_given_as_other_texts")
+        h = http.dump_cookie("k", "v", expires=text)
+        if h != f"k=v; Expires={text}; Path=/":
+            rec.violation("C13/attributes-not-as-requested", f"dump_cookie('k', 'v', expires={text!r}) -> {h!r}: the requested Expires is not what the header carries", {"part": "expires-text", "expires": text}, monitor="attribute-model")
+            return
+    want = {i: http.dump_cookie(f"k{i}", f"v {i};", path=f"/p{i}", domain=f"d{i}.example", httponly=bool(i % 2), secure=bool(i % 3)) for i in range(8)}
+    # history: an earlier dump that did not return
+    for kind in ("too-large-as-error", "bad-samesite", "unencodable-domain"):
+        rec.case()
+        rec.nontrivial(("dump-after-failed-dump", kind))
+        rec.observe("dumps_after_a_failed_dump")
+        try:
+            with warnings.catch_warnings():
+                warnings.simplefilter("error")
+                if kind == "too-large-as-error":
+                    http.dump_cookie("big", "x" * 5000, domain="evil.example", secure=True)
+                elif kind == "bad-samesite":
+                    http.dump_cookie("big", "x", domain="evil.example", secure=True, samesite="sideways")
+                else:
+                    http.dump_cookie("big", "x", domain="a" * 70 + ".example", secure=True)
+        except Exception:  # noqa: BLE001 (the failure is the point)
+            pass
+        got = {i: http.dump_cookie(f"k{i}", f"v {i};", path=f"/p{i}", domain=f"d{i}.example", httponly=bool(i % 2), secure=bool(i % 3)) for i in range(8)}
+        if got != want:
+            bad = next(i for i in want if got[i] != want[i])
+            rec.violation("C13/header-carries-parts-of-another-cookie", f"after a dump_cookie call that failed ({kind}) the same arguments give {got[bad]!r}, before {want[bad]!r}", {"part": "dump-after-failed-dump", "kind": kind}, monitor="attribute-model")
+            return
+    # schedule: eight threads dump their own cookies at once
+    old = sys.getswitchinterval()
+    sys.setswitchinterval(1e-5)
+    errs = []
+    try:
+        def work(i):
+            for _ in range(300):
+                h = http.dump_cookie(f"k{i}", f"v {i};", path=f"/p{i}", domain=f"d{i}.example", httponly=bool(i % 2), secure=bool(i % 3))
+                if h != want[i]:
+                    errs.append((i, h))
+                    return
+
+        ths = [threading.Thread(target=work, args=(i,)) for i in range(8)]
+        for t in ths:
+            t.start()
+        for t in ths:
+            t.join()
+    finally:
+        sys.setswitchinterval(old)
+    rec.case()
+    rec.nontrivial(("concurrent-dumps",))
+    rec.observe("cookies_dumped_on_eight_threads", 2400)
+    if errs:
+        rec.violation("C13/header-carries-parts-of-another-cookie", f"eight threads dumping their own cookies: thread {errs[0][0]} got {errs[0][1]!r}, expected {want[errs[0][0]]!r}", {"part": "concurrent-dumps"}, monitor="attribute-model")
+
+
 def rand_value(rng):
     out = []
     for _ in range(rng.randrange(0, 10)):
@@ -549,6 +615,9 @@ def run(shard, rec, rng):
         check_response_api(W, rec, rng)
     if idx % 8 == 3:
         check_jar_reentrant_and_clock(W, rec)
+    if idx % 4 == 2:
+        with rec.guard({"part": "expires-texts-and-dump-histories"}, "C13"):
+            check_expires_texts_and_dump_histories(W, rec, rng)
     # invalid samesite is refused
     if idx == 0:
         for bad in ("invalid", "lax; Secure", ""):
